@@ -180,7 +180,7 @@ Basins(g, b, line) ==
          x == Ctx(G)
          r == StateOf(G, b.snap)
          key == [k |-> "basins", g |-> ResultKeyGraph(G, b.snap)]
-     IN /\ (Has("C19") /\ r.width = 1 /\ b.snap = "") => Chk("C19.Labels", line, C19(x, r, b))
+     IN /\ (Has("C19") /\ r.width = 1) => Chk("C19.Labels", line, C19(x, r, b))
         /\ MemoOn(b.snap) =>
               (key \in DOMAIN memo => Chk("C09.SameBasins", line, memo[key] = b.lab))
         /\ memo' = IF key \in DOMAIN memo THEN memo ELSE (key :> b.lab) @@ memo
@@ -260,6 +260,22 @@ Spl(g, e, line) ==
              /\ Chk("C13.LimitedNodesIdentified", line, SplLimitedCount(x, e))
              /\ Chk("C13.SolvesImplicitEquation", line, SplEncloses(x, r, e))
   /\ UNCHANGED fvars
+
+BasinGraphObs(g, b, line) ==
+  /\ g \in DOMAIN graphs /\ graphs[g].cur # <<>>
+  /\ LET G == graphs[g]
+         x == Ctx(G)
+         key == [k |-> "bgraph", g |-> G.key]
+     IN /\ Has("C15") =>
+             /\ Chk("C15.BasinsAndOutlets", line, BgLabelsOK(x, b))
+             /\ Chk("C15.EdgesAreLowestPasses", line, BgEdgesOK(x, b))
+             /\ Chk("C15.VirtualRootEdges", line, BgVirtualOK(x, b))
+             /\ Chk("C15.TreeSpans", line, BgTreeOK(x, b))
+             /\ Chk("C15.TreeIsMinimal", line, BgMinimal(x, b))
+             /\ Chk("C15.TreeOriented", line, BgOriented(x, b))
+             /\ (key \in DOMAIN memo) => Chk("C15.SameWeightAsOtherMethod", line, memo[key] = BgSortedWeights(b))
+        /\ memo' = IF key \in DOMAIN memo THEN memo ELSE (key :> BgSortedWeights(b)) @@ memo
+  /\ UNCHANGED <<grid, graphs>>
 
 SnapMutate(g, nm, threw, line) ==
   /\ g \in DOMAIN graphs
